@@ -249,6 +249,55 @@ def check(run: Run) -> None:
                             explained.add(id(it))
                         run.report(f"C07/nested-dims/{dims}", {**c.describe(), "ops": [{"op": "parse", "data": d.hex(), "observed": repr(ka)[:300],
                                    "expected": inner_expected or ("the other reader gives " + repr(kb)[:300])}]})
+    # null-terminated arrays of structures: the terminator is an element whose FIELDS are all zero - padding and unassigned bits do not count
+    for text, al, el, term, elen in (
+            ("struct A { uint8 x; uint32 y; }; struct main { A a[]; uint8 tail; };", True, bytes([1, 0xAA, 0xBB, 0xCC, 2, 0, 0, 0]), bytes([0, 0xAA, 0xBB, 0xCC, 0, 0, 0, 0]), 8),
+            ("struct A { uint8 f : 3; uint8 g : 2; }; struct main { A a[]; uint8 tail; };", False, bytes([0x05]), bytes([0xE0]), 1),
+            ("struct A { uint16 x; uint64 y; }; struct main { A a[]; uint8 tail; };", True, bytes([1, 0] + [0x11] * 6 + [0] * 8), bytes([0, 0] + [0x77] * 6 + [0] * 8), 16)):
+        for compiled in (False, True):
+            for endian in ("<", ">"):
+                el_, term_ = (bytes([0xA0]), bytes([0x07])) if ("f : 3" in text and endian == ">") else (el, term)   # MSB-first: f, g are the top five bits
+                d = el_ + el_ + term_ + bytes([0x5A, 9, 9])
+                c = Case(text, endian=endian, compiled=compiled, align=al)
+                c.ops = [("parse", d, 0)]
+                try:
+                    its = build_items(c)
+                except RuntimeError:
+                    continue
+                items += its
+                n_oracle += 1
+                r = structs.parse(c._cs, "main", d, 0) if getattr(c, "_cs", None) is not None else ("skip",)
+                if r[0] == "err" or (r[0] == "ok" and (len(r[1].a) != 2 or r[1].tail != 0x5A)):
+                    failures += 1
+                    for it in its:
+                        explained.add(id(it))
+                    run.report("C07/struct-terminator", {**c.describe(), "ops": [{"op": "parse", "data": d.hex(), "observed": [len(r[1].a), r[1].tail] if r[0] == "ok" else repr(r[1])[:200],
+                               "expected": [2, 0x5A], "what": "the third element has all fields zero (only padding / unassigned bits set): it terminates the array"}]})
+
+    # negative counts, including the value the library uses internally as its EOF sentinel (-0xE0F): max(0, expr) = 0 elements
+    for kind in ("uint8", "uint16", "char", "P"):
+        text = f"{PRELUDE}struct main {{ uint16 n; uint16 m; {kind} a[m - n]; uint8 tail; }};"
+        for delta in (-3599, -3598, -3600, -1, -0xE0F * 2, -65535):
+            for compiled in (False, True):
+                n_ = rng.randrange(-delta, 65536) if -delta < 65536 else 65535
+                m_ = n_ + delta
+                d = n_.to_bytes(2, "little") + m_.to_bytes(2, "little") + bytes([0x5A, 1, 2, 3, 4, 5, 6, 7])
+                c = Case(text, endian="<", compiled=compiled)
+                c.ops = [("parse", d, 0)]
+                try:
+                    its = build_items(c)
+                except RuntimeError:
+                    continue
+                items += its
+                n_oracle += 1
+                r = structs.parse(c._cs, "main", d, 0) if getattr(c, "_cs", None) is not None else ("skip",)
+                if r[0] == "err" or (r[0] == "ok" and (len(r[1].a) != 0 or r[1].tail != 0x5A or r[2] != 5)):
+                    failures += 1
+                    for it in its:
+                        explained.add(id(it))
+                    run.report("C07/negative-count", {**c.describe(), "ops": [{"op": "parse", "data": d.hex(), "observed": [len(r[1].a), r[1].tail, r[2]] if r[0] == "ok" else repr(r[1])[:200],
+                               "expected": [0, 0x5A, 5], "what": f"a[m - n] with m - n = {delta} must hold max(0, expr) = 0 elements"}]})
+
     # the recorded finding: a zero-size element type under [EOF] never terminates on non-empty input
     for text in ("struct main { uint8 n; uint8 a[EOF][n]; };", "struct main { uint8 n; void a[EOF]; };"):
         c = Case(text, compiled=False)
